@@ -323,6 +323,18 @@ def suites(tier: str) -> t.List[Suite]:
     big = tier == 'thorough'
     inner = cg.class_specs(tg.type_specs(2), max_fields=3)
     ftypes = st.one_of(tg.type_specs(4 if big else 3), tg.type_specs(2, classes=inner))
-    return [Suite('construct', check, strategy=lambda: cases(ftypes), examples=8000 if big else 600, budget_s=480 if big else 40, render=render),
+    def post_init_cases(shard: int, nshards: int) -> t.Iterator[t.Any]:
+        from .c04 import hook_cases
+        for (i, c) in enumerate(c for c in hook_cases(0, 1) if c[0] == 'post_init'):
+            if i % nshards == shard:
+                yield c
+
+    def check_post_init(case: t.Any, ctx: Ctx) -> None:
+        # "__post_init__ runs for every instance created, a failure there surfacing as ConvertError on data paths" - whatever it raises
+        from .c04 import check_hooks
+        check_hooks(case, ctx)
+    return [Suite('post-init-failures', check_post_init, cases=post_init_cases, exhaustive=True, budget_s=30,
+                  render=lambda c: {'raises': c[1], 'layout': c[2], 'where': c[3]}),
+            Suite('construct', check, strategy=lambda: cases(ftypes), examples=8000 if big else 600, budget_s=480 if big else 40, render=render),
             Suite('field-converter', check_field_converter, strategy=fc_cases, examples=400 if big else 40, budget_s=30 if big else 10,
                   render=lambda c: {'path': c[0], 'price': c[1], 'tags given': c[2]})]
